@@ -24,7 +24,7 @@ RULE = ('seeded worlds (stub-made; all 17 types, contiguous/interleaved, typeles
 EXPECTED_PROBES = ['memmap-handle', 'raw-vs-converted-timestamps', 'file-level-chunks', 'typeless-channel', 'eager+lazy',
                    'scaled-channel']
 MODES = ['read', 'open']
-BACKENDS = ['simstream', 'simpath', 'bytesio', 'realpath', 'realfile', 'rawfile', 'gzipfile']
+BACKENDS = ['simstream', 'simpath', 'bytesio', 'realpath', 'realfile', 'rawfile', 'gzipfile', 'oldproto']
 
 
 def opts(tier):
